@@ -86,6 +86,27 @@ def attr_linkage(rep, cd: Codecs, u, rule="codec-symmetry"):
         if isinstance(g0, ast.Attribute) and norm(g0.value) == "self" and g0.attr != a and cd.prog.lookup_method(u.cls, g0.attr) is None if u.cls else False:
             rep.fail(rule, mod, fn, obj["node"], f"[attr] attribute {a} is decoded from the field in which the encoder stores `self.{g0.attr}` (the encoder never writes `self.{a}`): its value is lost / replaced on a round trip",
                      construct=f"{norm(head(obj['node']))} :: {a} <- {g0.attr}")
+    # the format the decoder was given must end up in the decoded object (the container writes block.format.value back)
+    if u.cls is not None and any(b.name == "Block" for b in cd.prog.mro(u.cls)) and "format" in obj["attrs"]:
+        got = obj["attrs"]["format"]
+        g = canon(got, un.ctx)
+        passed_through = isinstance(got, ast.Name) and got.id == "format" or (isinstance(got, ast.Call) and len(got.args) == 1 and norm(got.args[0]) == "format")
+        if g == "self.format" or passed_through:
+            rep.ok(rule, f"{u.name}/attr: format decodes to itself", nontrivial=True)
+        else:
+            k = enum_of_unit(cd.prog, u)
+            only = None
+            if k is not None and isinstance(got, ast.Attribute) and norm(got.value) == k.name:
+                R = normalise(u.rterms, "r")
+                members = cd.prog.enum_members(k)
+                acc = [m for m in members if not fails_under(R, m, k.name, "r")]
+                if acc == [got.attr]:
+                    only = got.attr
+            if only:
+                rep.ok(rule, f"{u.name}/attr: decoder accepts only format {only}, which is the constructor default it uses", nontrivial=True)
+            else:
+                rep.fail(rule, mod, fn, obj["node"], f"[attr] the decoded block's format is `{g}` instead of the format it was decoded with: re-encoding records another format code than the one these bytes need",
+                         construct=f"{norm(head(obj['node']))} :: format")
     for a, wnode in sorted(reads.items()):
         if a == "format":
             continue  # rule 6
@@ -302,6 +323,9 @@ def run(prog, rep):
     rep.attempt(PR.date_codec, prog, rep)
     # decoders attach items to their channel through the add method: an explicit channel must be honoured
     equivalence_discharge(prog, cd, rep, extra=("explicit-channel-honoured",))
+    # gap positions survive only if gap frames decode as NaN (runs are derived from NaN)
+    from .c05 import nan_prefill
+    rep.attempt(nan_prefill, prog, cd, rep)
     for n in cd.notes:
         rep.note(n)
     for a in cd.assumptions:
